@@ -309,8 +309,8 @@ func startWatchdog(s *sim, plan *Plan) (stop func()) {
 					idle = 0
 					last = now
 				}
-				if idle >= 30 {
-					fmt.Fprintf(os.Stderr, "HARNESS-TROUBLE: watchdog: no scheduler progress for 60s (prop=%s seed=%d)\n", plan.Prop, plan.Seed)
+				if idle >= 90 {
+					fmt.Fprintf(os.Stderr, "HARNESS-TROUBLE: watchdog: no scheduler progress for 180s (prop=%s seed=%d)\n", plan.Prop, plan.Seed)
 					os.Exit(2)
 				}
 			}
